@@ -23,6 +23,7 @@ func init() {
 			{ID: "R03.5", Configs: "asm", Run: func(p *Program, r *Report) { asmRuleR03_5(p, r) }},
 			{ID: "R03.6", Configs: "all", Run: ruleR03_6},
 			{ID: "R03.7", Configs: "all", Run: ruleR03_7},
+			{ID: "R03.8", Configs: "all", Run: ruleR03_8},
 		},
 		Explanation: "Decides four structural necessary conditions of 'malformed input is rejected with the standard errors': (R03.1) every lookup-table builder clears what it does not assign - the whole short table on the no-codes return, the copied prefix before the first copy-forward, each long-table group before it is filled - so an unassigned code of an incomplete Huffman code can only decode to an invalid (zero-length) entry, never to what an earlier block left there; " +
 			"(R03.2) every internal sentinel that the decode path can return is one that isError/step classify; (R03.3) at ArchLevel>=3 every assembly outcome other than success/end-of-input reaches a return with a non-nil error before any fallback; the constants the assembly can store in errno are among the Go errorNo* values (R03.5); " +
@@ -688,79 +689,176 @@ func ruleR03_4(p *Program, r *Report) {
 }
 
 // R03.6: the Kraft-sum comparison against 1<<maxHuffTreeDepth is done in >= 32-bit arithmetic.
-func ruleR03_6(p *Program, r *Report) {
-	r.Expect("R03.6", 2)
+// kraftSite: a code-space (Kraft) sum of the inflater and the comparisons that decide on it. The sum is the
+// left operand of a comparison with 1<<maxHuffTreeDepth; when that operand is a parameter of a helper
+// (completeCode(kraft, ...)), the sums are the arguments at the helper's call sites and all of the helper's
+// comparisons on that parameter apply to each of them.
+type kraftSite struct {
+	fn   *ssa.Function
+	sum  ssa.Value
+	at   ssa.Instruction
+	cmps []*ssa.BinOp
+}
+
+func kraftSites(p *Program) []kraftSite {
 	sp := p.Pkg(flateRel)
-	n := 0
+	var out []kraftSite
+	byParam := map[*ssa.Parameter][]*ssa.BinOp{}
+	direct := map[ssa.Value]*kraftSite{}
+	var order []ssa.Value
 	for _, fn := range p.Funcs() {
 		if fn.Pkg != sp {
 			continue
 		}
-		lab := newLabeler()
 		for _, b := range fn.Blocks {
 			for _, in := range b.Instrs {
 				bo, ok := in.(*ssa.BinOp)
-				if !ok || bo.Op != token.GTR {
+				if !ok {
 					continue
 				}
+				switch bo.Op {
+				case token.GTR, token.GEQ, token.LSS, token.LEQ, token.EQL, token.NEQ:
+				default:
+					continue
+				}
+				x := bo.X
 				k, isK := constInt(bo.Y)
+				if !isK {
+					k, isK = constInt(bo.X)
+					x = bo.Y
+				}
 				if !isK || k != 1<<15 {
 					continue
 				}
-				n++
-				key := shortFn(fn) + "|" + lab.get("over-subscription test")
-				// every value in the additive slice of the left side must be at least 32 bits wide
-				narrow := ""
-				seen := map[ssa.Value]bool{}
-				var walk func(v ssa.Value)
-				walk = func(v ssa.Value) {
-					if v == nil || seen[v] || narrow != "" {
+				if prm, ok := x.(*ssa.Parameter); ok {
+					byParam[prm] = append(byParam[prm], bo)
+					continue
+				}
+				if direct[x] == nil {
+					direct[x] = &kraftSite{fn: fn, sum: x, at: bo}
+					order = append(order, x)
+				}
+				direct[x].cmps = append(direct[x].cmps, bo)
+			}
+		}
+	}
+	for _, x := range order {
+		out = append(out, *direct[x])
+	}
+	for _, fn := range p.Funcs() {
+		for _, c := range allCalls(fn) {
+			g := c.Common().StaticCallee()
+			if g == nil {
+				continue
+			}
+			for i, prm := range g.Params {
+				if cmps := byParam[prm]; len(cmps) > 0 && i < len(c.Common().Args) {
+					out = append(out, kraftSite{fn: fn, sum: c.Common().Args[i], at: c, cmps: cmps})
+				}
+			}
+		}
+	}
+	return out
+}
+
+func ruleR03_6(p *Program, r *Report) {
+	r.Expect("R03.6", 2)
+	sites := kraftSites(p)
+	labs := map[*ssa.Function]*labeler{}
+	for _, ks := range sites {
+		if labs[ks.fn] == nil {
+			labs[ks.fn] = newLabeler()
+		}
+		key := shortFn(ks.fn) + "|" + labs[ks.fn].get("over-subscription test")
+		// every value in the additive slice of the sum must be at least 32 bits wide
+		narrow := ""
+		seen := map[ssa.Value]bool{}
+		var walk func(v ssa.Value)
+		walk = func(v ssa.Value) {
+			if v == nil || seen[v] || narrow != "" {
+				return
+			}
+			seen[v] = true
+			if bt, ok := v.Type().Underlying().(*types.Basic); ok && bt.Info()&types.IsInteger != 0 {
+				if p.Sizes.Sizeof(v.Type()) < 4 {
+					if _, isConv := v.(*ssa.Convert); !isConv {
+						narrow = v.String() + " is " + v.Type().String()
 						return
 					}
-					seen[v] = true
-					if bt, ok := v.Type().Underlying().(*types.Basic); ok && bt.Info()&types.IsInteger != 0 {
-						if p.Sizes.Sizeof(v.Type()) < 4 {
-							if _, isConv := v.(*ssa.Convert); !isConv {
-								narrow = v.String() + " is " + v.Type().String()
-								return
-							}
-						}
+				}
+			}
+			switch x := v.(type) {
+			case *ssa.BinOp:
+				if x.Op == token.ADD || x.Op == token.SHL || x.Op == token.SUB {
+					walk(x.X)
+					if x.Op != token.SHL {
+						walk(x.Y)
 					}
-					switch x := v.(type) {
-					case *ssa.BinOp:
-						if x.Op == token.ADD || x.Op == token.SHL || x.Op == token.SUB {
-							walk(x.X)
-							if x.Op != token.SHL {
-								walk(x.Y)
-							}
-						}
-					case *ssa.Phi:
-						for _, e := range x.Edges {
-							walk(e)
-						}
-					case *ssa.UnOp:
-						// a load from the accumulator array: its element type counts
-					case *ssa.Convert:
-						// widening conversion of a count is fine; of an element of a local accumulator array it is not:
-						// the wrap has already happened in the array
-						if ld, ok := x.X.(*ssa.UnOp); ok && ld.Op == token.MUL {
-							if ia, ok := ld.X.(*ssa.IndexAddr); ok {
-								if al, ok := ia.X.(*ssa.Alloc); ok {
-									if arr, ok := derefArray(al.Type()); ok && p.Sizes.Sizeof(arr.Elem()) < 4 && isAccumulator(al) {
-										narrow = "local accumulator array of " + arr.Elem().String()
-									}
-								}
+				}
+			case *ssa.Phi:
+				for _, e := range x.Edges {
+					walk(e)
+				}
+			case *ssa.UnOp:
+				// a load from the accumulator array: its element type counts
+			case *ssa.Convert:
+				// widening conversion of a count is fine; of an element of a local accumulator array it is not:
+				// the wrap has already happened in the array
+				if ld, ok := x.X.(*ssa.UnOp); ok && ld.Op == token.MUL {
+					if ia, ok := ld.X.(*ssa.IndexAddr); ok {
+						if al, ok := ia.X.(*ssa.Alloc); ok {
+							if arr, ok := derefArray(al.Type()); ok && p.Sizes.Sizeof(arr.Elem()) < 4 && isAccumulator(al) {
+								narrow = "local accumulator array of " + arr.Elem().String()
 							}
 						}
 					}
 				}
-				walk(bo.X)
-				r.Check(narrow == "", "R03.6", key, p.InstrPos(bo), "the code-space sum compared with 1<<15 is accumulated in at least 32 bits", "accumulated in a narrower type ("+narrow+"): a code over-subscribed by exactly a factor of two wraps to 0 and is accepted")
 			}
 		}
+		walk(ks.sum)
+		r.Check(narrow == "", "R03.6", key, p.InstrPos(ks.at), "the code-space sum compared with 1<<15 is accumulated in at least 32 bits", "accumulated in a narrower type ("+narrow+"): a code over-subscribed by exactly a factor of two wraps to 0 and is accepted")
 	}
-	if n < 2 {
-		r.Undecided("R03.6", "sites", "-", "two over-subscription tests (setCodes, setAndExpandLitLenHuffCode)", "found "+itoa(n))
+	if len(sites) < 2 {
+		r.Undecided("R03.6", "sites", "-", "two over-subscription tests (setCodes, setAndExpandLitLenHuffCode)", "found "+itoa(len(sites)))
+	}
+}
+
+// R03.8: a set of code lengths is accepted only if it is complete: each code-space sum is tested for equality
+// with 1<<15 (or from both sides), not merely for "not larger". compress/flate and zlib reject an incomplete
+// code in the header; accepting one ends in io.EOF on a stream the reference inflater calls corrupt.
+func ruleR03_8(p *Program, r *Report) {
+	r.Expect("R03.8", 2)
+	labs := map[*ssa.Function]*labeler{}
+	for _, ks := range kraftSites(p) {
+		if labs[ks.fn] == nil {
+			labs[ks.fn] = newLabeler()
+		}
+		key := shortFn(ks.fn) + "|" + labs[ks.fn].get("completeness test")
+		eq, above, below := false, false, false
+		for _, bo := range ks.cmps {
+			sumLeft := true
+			if _, isK := constInt(bo.X); isK {
+				sumLeft = false
+			}
+			switch bo.Op {
+			case token.EQL, token.NEQ:
+				eq = true
+			case token.GTR, token.GEQ:
+				if sumLeft {
+					above = true
+				} else {
+					below = true
+				}
+			case token.LSS, token.LEQ:
+				if sumLeft {
+					below = true
+				} else {
+					above = true
+				}
+			}
+		}
+		ok := eq || (above && below)
+		r.Check(ok, "R03.8", key, p.InstrPos(ks.at), "a Huffman code described in a block header is accepted only if its code space is exactly used (or it is empty / the single 1-bit code)", "the code-space sum is only tested for being too large: an incomplete code is accepted, and a stream that compress/flate rejects as corrupt can end in io.EOF")
 	}
 }
 
